@@ -139,7 +139,7 @@ def uncertainty_tokenizer(input_string: str) -> Generator[TokenInfo, None, None]
             # end of the input (NEWLINE / ENDMARKER): no exponent follows
             return None
         if (
-            possible_e_token.string[0] == "e"
+            possible_e_token.string[0] in "eE"
             and len(possible_e_token.string) > 1
             and possible_e_token.string[1].isdigit()
         ):
